@@ -71,6 +71,99 @@ def call(f, *args, **kw) -> Term:
     return ("call", f, tuple(args), tuple(sorted(kw.items())))
 
 
+def _rank(t) -> tuple:
+    return ({"c": 2, "g": 1}.get(t[0], 0), repr(t))
+
+
+def not_(x: Term) -> Term:
+    """Canonical negation: double negations vanish, negated order comparisons become the
+    complementary comparison."""
+    if x[0] == "u" and x[1] == "not":
+        return x[2]
+    if x[0] == "cmp" and x[1] == "<":
+        return ("cmp", "<=", x[3], x[2])
+    if x[0] == "cmp" and x[1] == "<=":
+        return ("cmp", "<", x[3], x[2])
+    if x[0] == "c" and isinstance(x[1], bool):
+        return ("c", not x[1])
+    return ("u", "not", x)
+
+
+def cmp_(op: str, l: Term, r: Term) -> Term:
+    """Canonical comparison: only <, <=, ==, is, in occur; >, >= are flipped, !=, is not,
+    not in become negations; the operands of == / is are ordered (variables first)."""
+    if op == ">":
+        return ("cmp", "<", r, l)
+    if op == ">=":
+        return ("cmp", "<=", r, l)
+    if op in ("==", "is"):
+        a, b = sorted((l, r), key=_rank)
+        return ("cmp", op, a, b)
+    if op == "!=":
+        return not_(cmp_("==", l, r))
+    if op == "is not":
+        return not_(cmp_("is", l, r))
+    if op == "not in":
+        return not_(("cmp", "in", l, r))
+    return ("cmp", op, l, r)
+
+
+def pc(cond: Term, pol: bool) -> tuple:
+    """Canonical path-condition entry: the atom carries no outer negation."""
+    while cond[0] == "u" and cond[1] == "not":
+        cond, pol = cond[2], not pol
+    return (cond, pol)
+
+
+def phi_(cond: Term, a: Term, b: Term, tag: str = "phi") -> Term:
+    while cond[0] == "u" and cond[1] == "not":
+        cond, a, b = cond[2], b, a
+    return (tag, cond, a, b)
+
+
+
+_REPO = [None]
+
+
+def callee_params(repo, f, self_cls=None):
+    """Ordered parameter names of a resolvable liesel callee (without self/cls)."""
+    fi = None
+    skip = 0
+    if f[0] == "g":
+        fi = repo.functions.get(f[1])
+        if fi is None and f[1] in repo.classes:
+            ci = repo.classes[f[1]]
+            init = repo.lookup_method(ci, "__init__")
+            if init is not None:
+                fi, skip = init, 1
+            else:
+                fields = []
+                for c_ in reversed(repo.mro(ci)):
+                    for fld in c_.annotated_fields():
+                        if fld not in fields:
+                            fields.append(fld)
+                return fields or None
+        elif fi is not None and fi.cls is not None:
+            skip = 0 if "staticmethod" in fi.decorators() else 1
+    elif f[0] == "fn":
+        fi = repo.functions.get(f[1])
+    elif f[0] == "a" and f[1] == n("self") and self_cls is not None:
+        fi = repo.lookup_method(self_cls, f[2])
+        skip = 1
+        if fi is not None:
+            decs = fi.decorators()
+            if "property" in decs:
+                return None
+            if "staticmethod" in decs:
+                skip = 0
+    if fi is None or isinstance(fi.node, ast.Lambda):
+        return None
+    a = fi.node.args
+    if a.posonlyargs:
+        return None
+    return [x.arg for x in a.args][skip:]
+
+
 class Env:
     def __init__(self):
         self.vars: dict[str, Term] = {}
@@ -117,7 +210,11 @@ class Result:
         out = self.returns[-1][1]
         for cond, term, _ in reversed(self.returns[:-1]):
             if term != out:
-                out = ("phi", ("path", cond), term, out)
+                if len(cond) == 1:
+                    atom, pol = cond[0]
+                    out = phi_(atom, term, out) if pol else phi_(atom, out, term)
+                else:
+                    out = ("phi", ("path", cond), term, out)
         return out
 
 
@@ -128,6 +225,7 @@ class Evaluator:
                  inline_depth: int = 2, bindings: dict[str, Term] | None = None,
                  closure: dict[str, Term] | None = None):
         self.repo = repo
+        _REPO[0] = repo
         self.fi = fi
         self.mi: ModuleInfo = fi.module
         self.inline = inline
@@ -303,6 +401,8 @@ class Evaluator:
         o = UNOPS.get(type(e.op), "?")
         if o == "-" and x[0] == "c" and isinstance(x[1], (int, float)):
             return c(-x[1])
+        if o == "not":
+            return not_(x)
         return ("u", o, x)
 
     def e_BoolOp(self, e):
@@ -314,14 +414,14 @@ class Evaluator:
         parts = []
         for op, right in zip(e.ops, e.comparators):
             r = self.expr(right)
-            parts.append(("cmp", CMPOPS.get(type(op), "?"), left, r))
+            parts.append(cmp_(CMPOPS.get(type(op), "?"), left, r))
             left = r
         if len(parts) == 1:
             return parts[0]
         return ("bool", "and", tuple(parts))
 
     def e_IfExp(self, e):
-        return ("ifexp", self.expr(e.test), self.expr(e.body), self.expr(e.orelse))
+        return phi_(self.expr(e.test), self.expr(e.body), self.expr(e.orelse), "ifexp")
 
     def e_JoinedStr(self, e):
         parts = []
@@ -397,6 +497,7 @@ class Evaluator:
                 kwargs.append(("**", self.expr(kw.value)))
             else:
                 kwargs.append((kw.arg, self.expr(kw.value)))
+        args, kwargs = self._canon_call(f, args, kwargs)
         t = ("call", f, args, tuple(sorted(kwargs)))
         if not args and not kwargs and f in (("n", "dict"), ("n", "list"), ("n", "set")):
             t = (f[1], (), self._uid()) if f[1] != "set" else ("set", (), self._uid())
@@ -412,6 +513,26 @@ class Evaluator:
             if r is not None:
                 return r
         return t
+
+    def _canon_call(self, f, args, kwargs):
+        """Keyword arguments of calls to liesel functions become positional where that
+        is unambiguous (so f(a, b=x) and f(a, x) are the same term)."""
+        if not kwargs or any(k == "**" for k, _ in kwargs) or any(
+                a[0] == "star" for a in args):
+            return args, kwargs
+        try:
+            params = callee_params(self.repo, f, self.fi.cls)
+        except Exception:
+            params = None
+        if not params:
+            return args, kwargs
+        kw_ = dict(kwargs)
+        out = list(args)
+        i = len(out)
+        while i < len(params) and params[i] in kw_:
+            out.append(kw_.pop(params[i]))
+            i += 1
+        return tuple(out), list(kw_.items())
 
     def e_Await(self, e):
         return self.expr(e.value)
@@ -523,20 +644,20 @@ class Evaluator:
             if a == b:
                 out.vars[k] = a
             else:
-                out.vars[k] = ("phi", cond, a if a is not None else ("undef", k),
-                               b if b is not None else ("undef", k))
+                out.vars[k] = phi_(cond, a if a is not None else ("undef", k),
+                                   b if b is not None else ("undef", k))
         for k in set(e1.heap) | set(e2.heap):
             a, b = e1.heap.get(k, k), e2.heap.get(k, k)
-            out.heap[k] = a if a == b else ("phi", cond, a, b)
+            out.heap[k] = a if a == b else phi_(cond, a, b)
         self.env = out
 
     def s_If(self, st):
         cond = self.expr(st.test)
         base_env, base_cond = self.env, self.cond
-        self.env, self.cond = base_env.copy(), base_cond + ((cond, True),)
+        self.env, self.cond = base_env.copy(), base_cond + (pc(cond, True),)
         f1 = self.block(st.body)
         e1 = self.env if f1 else None
-        self.env, self.cond = base_env.copy(), base_cond + ((cond, False),)
+        self.env, self.cond = base_env.copy(), base_cond + (pc(cond, False),)
         f2 = self.block(st.orelse)
         e2 = self.env if f2 else None
         self.cond = base_cond
@@ -546,9 +667,9 @@ class Evaluator:
         self._join(cond, e1, e2)
         # after an early exit in one arm the surviving arm's condition persists
         if e1 is None:
-            self.cond = base_cond + ((cond, False),)
+            self.cond = base_cond + (pc(cond, False),)
         elif e2 is None:
-            self.cond = base_cond + ((cond, True),)
+            self.cond = base_cond + (pc(cond, True),)
 
     def _loop(self, st, it: Term | None, cond: Term | None):
         before = self.env.copy()
@@ -886,6 +1007,15 @@ def kw(t: Term, name: str, pos: int | None = None) -> Term | None:
             return v
     if pos is not None and pos < len(t[2]):
         return t[2][pos]
+    if pos is None and _REPO[0] is not None:
+        # calls to liesel functions / classes are stored with canonical positional
+        # arguments: find the parameter's position from the callee's signature
+        try:
+            params = callee_params(_REPO[0], t[1])
+        except Exception:
+            params = None
+        if params and name in params and params.index(name) < len(t[2]):
+            return t[2][params.index(name)]
     return None
 
 
